@@ -1293,8 +1293,9 @@ func (m *Manager) handleMessage(tm *TaskmanMessage) error {
 
 		// This will check if the task update is from a reconciliation, as well as whether the task
 		// is in a state in which a mesos Kill call is possible.
-		// Reconcilation tasks are not part of the taskman.roster
+		// Only tasks that are not part of the taskman.roster (leftovers of a previous core instance) are killed
 		if mesosStatus.GetReason().String() == "REASON_RECONCILIATION" &&
+			m.roster.getByTaskId(mesosStatus.GetTaskID().Value) == nil &&
 			(mesosState == mesos.TASK_STAGING ||
 				mesosState == mesos.TASK_STARTING ||
 				mesosState == mesos.TASK_RUNNING ||
